@@ -763,6 +763,20 @@ class World(object):
             oracles.check_tables(self, op["f"], tabs)
         return {"value": out}
 
+    def op_grab(self, op):
+        """Bind an object reachable through a public attribute (e.g. a generated class constraint)."""
+        src = self.get(op["h"])
+        lst = getattr(src, op["attr"])
+        obj = lst[op.get("index", 0)]
+        kind = op.get("kind", "cons")
+        den = None
+        if kind == "cons":
+            den = {"expr": self.den_expr(obj.expression),
+                   "sense": "eq" if obj.equality_or_inequality == "equality" else "le"}
+        elif kind == "psd":
+            den = [[self.den_expr(e) for e in row] for row in obj.matrix_of_expressions]
+        self.bind(op["out"], obj, kind, den=den)
+
     def op_check(self, op):
         """Run an in-leg oracle now (e.g. handles built after the solve)."""
         from sim import oracles
